@@ -17,6 +17,7 @@ import json
 import multiprocessing
 import random
 from collections import Counter, defaultdict
+from concurrent.futures import ThreadPoolExecutor
 
 from gverif import tlc
 from gverif.common import SEED, die
@@ -25,7 +26,7 @@ from gverif.props.x03_worker import case_key, layout_key, run_group
 
 CFG = {"quick": "FileAttrs_quick.cfg", "thorough": "FileAttrs_thorough.cfg"}
 FAMILIES = ["reg", "single", "ns", "stubs", "api", "builtin"]
-CAUSES = ["single-file-top", "stubs-elsewhere", "builtin-predicates"]
+CAUSES = ["single-file-top", "stubs-elsewhere", "builtin-predicates", "dangling-in-namespace"]
 
 
 def chunks(groups: list, n: int):
@@ -39,8 +40,8 @@ def replay(run: Run, cases: list, procs: int, pool) -> dict:
     groups = defaultdict(list)
     for i, c in enumerate(cases):
         groups[layout_key(c)].append((i, c))
-    work = list(chunks(list(groups.values()), 40))
-    stats = {"drift": 0, "checked": 0, "structure": Counter(), "kinds": Counter(), "skipped": 0, "layouts": len(groups)}
+    work = sorted(chunks(list(groups.values()), 6), key=len, reverse=True)
+    stats = {"drift": 0, "checked": 0, "structure": Counter(), "kinds": Counter(), "skipped": 0, "layouts": len(groups), "loads": 0}
     for results in pool.imap_unordered(run_group, work, chunksize=1):
         for i, res in results:
             case = cases[i]
@@ -48,7 +49,8 @@ def replay(run: Run, cases: list, procs: int, pool) -> dict:
             if "skipped" in res:
                 stats["skipped"] += 1
                 continue
-            run.replayed()
+            run.replayed(res["loads"])
+            stats["loads"] += res["loads"]
             stats["drift"] += res["drift"]
             stats["checked"] += res["checked"]
             for k in res["kinds"]:
@@ -60,7 +62,7 @@ def replay(run: Run, cases: list, procs: int, pool) -> dict:
             if len(case["obs"]) > 1 or case["causes"]:
                 run.nontrivial_case(json.dumps(case_key(case)))
             if len(case["obs"]) > 2:
-                run.sample({"case": case_key(case), "modules": [".".join(o["name"]) for o in case["obs"]], "cwd": case["cwdpath"]})
+                run.sample({"case": case_key(case), "modules": [".".join(o["name"]) for o in case["obs"]], "cwds": sorted(case["cwds"])})
             for v in res["violations"]:
                 run.violation(v["sig"], v["what"], {"key": case_key(case), "case": case})
     return stats
@@ -76,23 +78,25 @@ def vacuity(cases: list, res) -> None:
         die(f"X03: cause classes never reached: {set(CAUSES) - seen}")
     if not any(not c["causes"] for c in cases if c["fam"] in ("reg", "ns", "stubs", "api")):
         die("X03: no clean layout")
-    if not any(o["mr"] for c in cases for o in c["obs"]):
+    if not any(o["mr"] or o["mrf"] for c in cases for o in c["obs"]):
         die("X03: no case where Ref accepts more than the Impl value (namespace lists)")
     for need in ("T",):
         for f in ("init", "package", "subpackage", "ns", "nssub"):
             if not any(o["mi"][f] == need for c in cases for o in c["obs"]):
                 die(f"X03: predicate {f} is never true in the model")
     for t in ("err",):
-        for f in ("fp", "rf", "rpf"):
+        for f in ("fp", "rpf"):
             if not any(o["mi"][f]["t"] == t for c in cases for o in c["obs"]):
                 die(f"X03: attribute {f} never raises in the model")
+        if not any(v["t"] == t and v["v"] == [["ValueError"]] for c in cases for o in c["obs"] for v in o["mi"]["rf"].values()):
+            die("X03: relative_filepath never raises ValueError in the model")
 
 
 def main(tier: str, replay_file: str | None = None):
     run = Run("X03", tier)
     run.rule = ("FileAttrs.tla: every layout of the families reg/single/ns/stubs/api/builtin within the bounds of the cfg x "
-                "search-path form (abs, rel, sym; .pth for sp3) x request (name, path) x cwd position; non-trivial = more than "
-                "one module in the table or a known cause class; distinct by (layout, cwd, form, request).")
+                "search-path form (abs, rel, sym; .pth for sp3) x request (name, path); every case is observed under each cwd position (one fresh load per position); "
+                "non-trivial = more than one module in the table or a known cause class; distinct by (layout, form, request).")
     procs = 12 if tier == "thorough" else 8
     if replay_file:
         with open(replay_file) as fh:
@@ -105,17 +109,21 @@ def main(tier: str, replay_file: str | None = None):
         run.finish()
     # the pool is forked before the (large) case list exists
     with multiprocessing.get_context("fork").Pool(procs) as pool:
-        res = tlc.run("FileAttrs", CFG[tier], workers=4 if tier == "quick" else 8, constants={"EMIT": "TRUE"}, timeout=3000, heap="6g")
+        with ThreadPoolExecutor(2) as ex:
+            fmain = ex.submit(tlc.run, "FileAttrs", CFG[tier], workers=4 if tier == "quick" else 8, constants={"EMIT": "TRUE"}, timeout=3000, heap="6g")
+            fdef = ex.submit(tlc.run, "FileAttrs", "FileAttrs_defect.cfg", workers=1, timeout=900)
+            res, dres = fmain.result(), fdef.result()
         tlc.must(res)
         run.add_tlc(res)
         cases = res.cases
         vacuity(cases, res)
-        dres = tlc.run("FileAttrs", "FileAttrs_defect.cfg", workers=1, timeout=600)
+        if not dres.finished and not dres.violated:
+            die(f"X03: defect configuration did not run: {dres.errors[:2]}")
         if "NoViolationAnywhere" not in dres.violated:
             die("X03: the defect configuration is not violated - the model no longer exhibits the known defects")
         run.add_tlc(dres)
         chosen = cases
-        limit = 9000 if tier == "quick" else 120000
+        limit = 4000 if tier == "quick" else 40000
         if len(cases) > limit:
             # every case of the small families, a seeded sample of the namespace family (whole layouts)
             rnd = random.Random(SEED)
@@ -144,6 +152,6 @@ def main(tier: str, replay_file: str | None = None):
     for need in ("module:path", "module:list", "module:err", "class", "function", "attribute", "alias:class", "alias:module", "alias-chain:class", "alias-dangling"):
         if not stats["kinds"][need]:
             die(f"X03: no real object of kind {need} was observed")
-    run.extra["x03"] = {"layouts": stats["layouts"], "attribute_values_compared": stats["checked"], "kinds": dict(stats["kinds"]),
+    run.extra["x03"] = {"layouts": stats["layouts"], "loads": stats["loads"], "attribute_values_compared": stats["checked"], "kinds": dict(stats["kinds"]),
                         "cases_by_family": dict(Counter(c["fam"] for c in cases))}
     run.finish()
